@@ -18,7 +18,7 @@ pub fn prop() -> Prop {
     .random(
         "lex-soup",
         check,
-        |t| if t == Tier::Quick { 1_500_000 } else { 40_000_000 },
+        |t| if t == Tier::Quick { 5_000_000 } else { 60_000_000 },
         |t| if t == Tier::Quick { 160 } else { 400 },
     )
     .text(check_text)
